@@ -103,7 +103,7 @@ func (w *flipW) WriteHeader(c int) {
 // "OPTIONS *" and must get exactly the method set of the state it has just committed. Readers only require one of the
 // two sets (before/after), never anything else.
 func OptionsStar(run *kit.Run) {
-	rounds := run.Pick(6, 60)
+	rounds := run.Pick(12, 120)
 	var checked, concurrent atomic.Int64
 	fox.VerifSetPoint(func(name string) {
 		if name == "commit.beforeStore" || name == "commit.afterStore" {
@@ -132,7 +132,11 @@ func OptionsStar(run *kit.Run) {
 		h := func(c fox.Context) { c.Writer().WriteHeader(200) }
 		f.MustHandle("GET", "/a", h)
 		pattern := []string{"/only", "h.com/only", "{s}.h.com/only/{x}"}[round%3]
-		without, with := "GET, OPTIONS", "FOO, GET, OPTIONS"
+		// a custom verb (its root comes and goes) and common verbs (their roots always exist, with or without routes)
+		verb := []string{"FOO", "PUT", "DELETE", "POST"}[(round/3)%4]
+		set := []string{"GET", "OPTIONS", verb}
+		sort.Strings(set)
+		without, with := "GET, OPTIONS", strings.Join(set, ", ")
 		var stop atomic.Bool
 		var wg sync.WaitGroup
 		for rd := 0; rd < 6; rd++ {
@@ -144,7 +148,7 @@ func OptionsStar(run *kit.Run) {
 					concurrent.Add(1)
 					if got != with && got != without {
 						stop.Store(true)
-						run.Violate(fmt.Sprintf("options-star-mixed|round=%d", round), fmt.Sprintf("OPTIONS * answered Allow=%q while the only FOO route is added and removed: neither %q nor %q", got, with, without), map[string]any{"round": round, "allow": got})
+						run.Violate(fmt.Sprintf("options-star-mixed|round=%d", round), fmt.Sprintf("OPTIONS * answered Allow=%q while the only route of a verb is added and removed: neither %q nor %q", got, with, without), map[string]any{"round": round, "allow": got})
 					}
 				}
 			}()
@@ -153,14 +157,14 @@ func OptionsStar(run *kit.Run) {
 			var werr error
 			want := with
 			if i%2 == 0 {
-				_, werr = f.Handle("FOO", pattern, h)
+				_, werr = f.Handle(verb, pattern, h)
 			} else {
-				_, werr = f.Delete("FOO", pattern)
+				_, werr = f.Delete(verb, pattern)
 				want = without
 			}
 			if werr != nil {
 				stop.Store(true)
-				run.Violate(fmt.Sprintf("options-star-write|round=%d", round), fmt.Sprintf("write %d on FOO %s failed: %v", i, pattern, werr), map[string]any{"round": round})
+				run.Violate(fmt.Sprintf("options-star-write|round=%d", round), fmt.Sprintf("write %d on %s %s failed: %v", i, verb, pattern, werr), map[string]any{"round": round})
 				break
 			}
 			// the write has returned: three sequential requests, all must reflect it
@@ -168,7 +172,7 @@ func OptionsStar(run *kit.Run) {
 				checked.Add(1)
 				if got := ask(f); got != want {
 					stop.Store(true)
-					run.Violate(fmt.Sprintf("options-star-stale|round=%d", round), fmt.Sprintf("after write %d on FOO %s had returned, OPTIONS * answered Allow=%q; the committed state gives %q (request #%d after the write, readers running concurrently)", i, pattern, got, want, k+1), map[string]any{"round": round, "write": i, "allow": got, "want": want})
+					run.Violate(fmt.Sprintf("options-star-stale|round=%d", round), fmt.Sprintf("after write %d on "+verb+" %s had returned, OPTIONS * answered Allow=%q; the committed state gives %q (request #%d after the write, readers running concurrently)", i, pattern, got, want, k+1), map[string]any{"round": round, "write": i, "allow": got, "want": want})
 					break
 				}
 			}
@@ -289,6 +293,12 @@ func paramStorm(run *kit.Run, forward bool) {
 					if rte, cc, _ := f.Lookup(nil, rq); rte != nil {
 						check(cc)
 						cc.Close()
+					}
+				} else if i%7 == 3 {
+					// "find the first route that matches": the consumer leaves the iterator's loop after the first result
+					for _, rte := range f.Iter().Reverse(func(y func(string) bool) { _ = y("POST") && y("GET") }, rq.Host, rq.URL.Path) {
+						_ = rte
+						break
 					}
 				} else {
 					f.ServeHTTP(w, rq)
